@@ -46,6 +46,8 @@ def choices(text):
 
 
 def run(ctx, rep):
+    from ..rules_dep import run_dep
+    run_dep(ctx, rep, "C16")
     from ..rules_tz import floor_print
     floor_print(rep, ctx.prog("Q"))
     prog = ctx.prog("Q")
